@@ -8,6 +8,8 @@ import (
 	"bytes"
 
 	"github.com/cloudwego/dynamicgo/conv"
+	pbinary "github.com/cloudwego/dynamicgo/proto/binary"
+	"github.com/cloudwego/dynamicgo/thrift"
 )
 
 // ConvBuffers takes up to n buffers out of the pool, fills their whole capacity with 0xDB and puts them back.
@@ -23,6 +25,25 @@ func ConvBuffers(n int) {
 	}
 	for i := len(bs) - 1; i >= 0; i-- {
 		conv.FreeBytes(bs[i])
+	}
+	// the pooled protocol objects of both codecs keep a buffer of their own
+	var tps []*thrift.BinaryProtocol
+	var pps []*pbinary.BinaryProtocol
+	for i := 0; i < n; i++ {
+		tp := thrift.NewBinaryProtocolBuffer()
+		for j, b := 0, tp.Buf[:cap(tp.Buf)]; j < len(b); j++ {
+			b[j] = 0xDB
+		}
+		tps = append(tps, tp)
+		pp := pbinary.NewBinaryProtocolBuffer()
+		for j, b := 0, pp.Buf[:cap(pp.Buf)]; j < len(b); j++ {
+			b[j] = 0xDB
+		}
+		pps = append(pps, pp)
+	}
+	for i := len(tps) - 1; i >= 0; i-- {
+		thrift.FreeBinaryProtocolBuffer(tps[i])
+		pbinary.FreeBinaryProtocol(pps[i])
 	}
 }
 
